@@ -51,6 +51,7 @@ def run_history(plan, plugins):
     """returns list of per-op dicts + host + leaked module names"""
     ops = []
     with World(plugins=plugins, registry=plan["registry"]) as w:
+        w.long_opts = bool(plan.get("long_opts"))
         common.put_store(w, "D", plan["pels"])
         host = w.host
         extra = ["-P"] if plan["skip_plugins"] else []
